@@ -37,6 +37,7 @@ func runBitHistory(c *Call, slot *CallResult) {
 	var bl *utils.BitList = new(utils.BitList)
 	var model []bool
 	histID := c.I1
+	lastStream := 0
 
 	fail := func(op int, format string, a ...any) {
 		slot.Class = "diverged"
@@ -173,6 +174,74 @@ func runBitHistory(c *Call, slot *CallResult) {
 			}
 			stats["iter"]++
 			stats["iter_bytes"] += len(got)
+		case "itern":
+			// several streams open on the same (unchanged) list at once, consumed in a seeded interleaving
+			k := op.A
+			if k < 2 {
+				k = 2
+			}
+			if k > 4 {
+				k = 4
+			}
+			chans := make([]<-chan byte, k)
+			gots := make([][]byte, k)
+			closed := make([]bool, k)
+			open := 0
+			x := uint32(op.N)*2654435761 + 12345
+			guard := 0
+			for open < k || func() bool {
+				for j := range closed {
+					if !closed[j] {
+						return true
+					}
+				}
+				return false
+			}() {
+				guard++
+				if guard > k*(len(model)/8+20)*4 {
+					fail(i, "interleaved IterateBytes streams did not finish")
+					return
+				}
+				x = x*1664525 + 1013904223
+				j := int(x>>16) % k
+				// bias: stay on one stream for a while so that streams drift apart by whole blocks
+				if (x>>8)%4 != 0 && guard > 1 {
+					j = int(x>>24) % k
+					if (x>>12)%8 != 0 {
+						j = lastStream
+					}
+				}
+				if closed[j] {
+					// pick any unfinished stream
+					for jj := range closed {
+						if !closed[jj] {
+							j = jj
+							break
+						}
+					}
+				}
+				lastStream = j
+				if chans[j] == nil {
+					chans[j] = bl.IterateBytes()
+					open++
+				}
+				v, ok := rt.Recv2(chans[j], 0)
+				if !ok {
+					closed[j] = true
+					continue
+				}
+				gots[j] = append(gots[j], v)
+				if len(gots[j]) > len(model)/8+16 {
+					fail(i, "IterateBytes stream %d produced too many bytes", j)
+					return
+				}
+			}
+			for j := range gots {
+				if !bytesEq(i, "IterateBytes() stream "+string(rune('A'+j))+" of "+string(rune('0'+k))+" concurrent streams", gots[j]) {
+					return
+				}
+			}
+			stats["itern"]++
 		default:
 			continue
 		}
